@@ -196,13 +196,14 @@ impl ProtocolStage for CanonicalId {
         repo: &Repository,
         refs: &'a [ReceivedRef],
     ) -> Result<Updates<'a>, error::Prepare> {
-        // SAFETY: checked by `pre_validate` that the `refs/rad/id`
-        // was received
+        // N.b. `pre_validate` lets an empty advertisement through. In
+        // that case there is nothing to update, and the caller fails
+        // with a missing `rad/id`, unless it has its own.
+        let Some(rad_id) = s.canonical_rad_id() else {
+            return Ok(Updates::default());
+        };
         let verified = repo
-            .identity_doc_at(
-                *s.canonical_rad_id()
-                    .expect("ensure we got canonicdal 'rad/id' ref"),
-            )
+            .identity_doc_at(*rad_id)
             .map_err(|err| error::Prepare::Verification {
                 remote: self.remote,
                 err: Box::new(err),
